@@ -155,8 +155,11 @@ class Run:
         os.makedirs(rdir, exist_ok=True)
         seen = set()
         reported = 0
+        only = os.environ.get("VERIF_REPLAY_SIG")
         for v in self.violations:
             key = json.dumps(v["sig"], sort_keys=True)
+            if only and key != only:
+                continue
             if key in seen:
                 continue
             seen.add(key)
